@@ -1,5 +1,5 @@
 CONSTANTS NodeId = 5  NT = 1  NR = 1  Walk = TRUE  WalkLen = 40  PoolN = 16  CfgName = "C16"
-CONSTANT Objs <- MCObjs  ObjOrder <- MCOrder  V0 <- MCV0  TC0 <- TC16  RC0 <- RC16  Sync0 <- S16  Letters <- L16  ProbeLetters <- P16
+CONSTANT Objs <- MCObjs  ObjOrder <- MCOrder  V0 <- MCV0  TC0 <- TC16  RC0 <- RC16  Sync0 <- S16  Letters <- L16  ProbeLetters <- P16  Probe2Letters <- PNone
 INIT Init
 NEXT Next
 
